@@ -33,6 +33,15 @@ def _U(a, b, z):
     return uf("hyperu_f", (a, b, z)), uf("hyperu_d", (a, b, z))
 
 
+def _rising(x, k):
+    """Pochhammer symbol (x)_k = Gamma(x + k) / Gamma(x), k >= 0 an integer"""
+    from symx.dom import Q
+    r = Q.of(1)
+    for i in range(k):
+        r = r * (x + i)
+    return r
+
+
 def h_closed(ctx, which):
     """cases with an elementary answer: exact equality with the answer written from the
     definition of the tilted distribution."""
@@ -131,8 +140,12 @@ def h_algebra(ctx, which):
         ai, bi, aj, bj = sym("ai"), sym("bi"), sym("aj"), sym("bj")
         y, mu = sym("y", "nonneg"), sym("mu", "pos")
         try:
-            if which in ("moments", "unphased_moments"):
+            if which in ("moments", "unphased_moments", "mutation_moments",
+                         "mutation_unphased_moments"):
                 out = getattr(approx, which)(ai, bi, aj, bj, y, mu)
+            elif which == "mutation_sideways_moments":
+                ti = sym("ti", "pos")
+                out = approx.mutation_sideways_moments(ti, aj, bj, y, mu)
             elif which == "leafward_moments":
                 ti = sym("ti", "pos")
                 out = approx.leafward_moments(ti, aj, bj, y, mu)
@@ -150,6 +163,57 @@ def h_algebra(ctx, which):
             return
     if _nan(out[1]):
         ctx.tag("skip")
+        return
+    if which == "mutation_moments":
+        # t_m | t_i, t_j uniform on (t_j, t_i) under the `moments` density:
+        # E[t_i^p t_j^q] = Z(a_i + p, a_j + q) / Z with
+        # Z = B(a_j, y+1) Gamma(b) t^-b 2F1(a_j, b; a_j + y + 1; z),  b = a_i + a_j + y
+        a, b, c, t = aj, ai + aj + y, aj + y + 1, mu + bi
+        z = (mu - bj) / t
+
+        def E(p, q):
+            return _rising(a, q) / _rising(c, q) * _rising(b, p + q) / t ** (p + q) * \
+                ex(_F(a + q, b + p + q, c + q, z) - _F(a, b, c, z))
+        r1 = ex(_F(a + 1, b + 1, c + 1, z) - _F(a, b, c, z))
+        mnj = a * b / c / t * r1
+        mni = b / t + z * mnj           # contiguous relation, as for `moments`
+        e1 = (mni + mnj) / 2
+        e2 = (E(2, 0) + E(1, 1) + E(0, 2)) / 3
+        _eq(ctx, "mutation_moments:E[t_m]", out[0], e1)
+        _eq(ctx, "mutation_moments:V[t_m]", out[1], e2 - e1 * e1)
+        ctx.tag("algebra")
+        return
+    if which == "mutation_unphased_moments":
+        # density (t_i + t_j)^y ...: dividing by (t_i + t_j) lowers y by one;
+        # Z_y(a_i, a_j) = B(a_j, a_i) Gamma(b) t^-b 2F1(a_j, b; a_i + a_j; 1 - z)
+        a, b, c, t = aj, ai + aj + y, ai + aj, mu + bi
+        w = 1 - (mu + bj) / t
+
+        def R(di, dj):      # Z_{y-1}(a_i + di, a_j + dj) / Z_y(a_i, a_j)
+            k = di + dj - 1
+            return _rising(a, dj) * _rising(c - a, di) / _rising(c, di + dj) * _rising(b, k) / t ** k * \
+                ex(_F(a + dj, b + k, c + di + dj, w) - _F(a, b, c, w))
+        pr = R(1, 0)
+        e1 = (R(2, 0) + R(0, 2)) / 2
+        e2 = (R(3, 0) + R(0, 3)) / 3
+        _eq(ctx, "mutation_unphased:P[under i]", out[0], pr)
+        _eq(ctx, "mutation_unphased:E[t_m]", out[1], e1)
+        _eq(ctx, "mutation_unphased:V[t_m]", out[2], e2 - e1 * e1)
+        ctx.tag("algebra")
+        return
+    if which == "mutation_sideways_moments":
+        # t_j = t_i u, u^(a-1) (1+u)^y exp(-z u): Z_y(a) = t_i^(a+y) Gamma(a) U(a, a+y+1, z) e^(-mu t_i)
+        a, b, z = aj, aj + y + 1, ti * (mu + bj)
+
+        def Ru(k):          # Z_{y-1}(a + k) / Z_y(a) / t_i^(k-1)
+            return _rising(a, k) * ex(_U(a + k, b + k - 1, z)[0] - _U(a, b, z)[0])
+        pr = 1 - Ru(1)
+        e1 = pr * ti / 2 + ti * Ru(2) / 2
+        e2 = pr * ti * ti / 3 + ti * ti * Ru(3) / 3
+        _eq(ctx, "mutation_sideways:P[under i]", out[0], pr)
+        _eq(ctx, "mutation_sideways:E[t_m]", out[1], e1)
+        _eq(ctx, "mutation_sideways:V[t_m]", out[2], e2 - e1 * e1)
+        ctx.tag("algebra")
         return
     if which in ("moments", "unphased_moments"):
         a, b, t = aj, ai + aj + y, mu + bi
@@ -205,7 +269,8 @@ def cases(tier):
     for w in ("rootward_at_zero", "twin", "edge", "block", "mutation_rootward", "mutation_leafward"):
         cs.append(Case(f"closed:{w}", h_closed, dict(which=w)))
     for w in ("moments", "unphased_moments", "leafward_moments", "rootward_moments",
-              "sideways_moments"):
+              "sideways_moments", "mutation_moments", "mutation_unphased_moments",
+              "mutation_sideways_moments"):
         cs.append(Case(f"algebra:{w}", h_algebra, dict(which=w), weight=20))
     return cs
 
@@ -223,7 +288,8 @@ def run(tier, seed, t0):
         "mutation on an edge / block with fixed ends, mutation between a fixed end and a free end) "
         "are proved exactly equal to the answer written from the definition, with their support "
         "facts (mean between the ends, variance > 0).  (3) moments, unphased_moments, "
-        "leafward_moments, rootward_moments, sideways_moments are proved equal to ratios of "
+        "leafward_moments, rootward_moments, sideways_moments, mutation_moments, "
+        "mutation_unphased_moments, mutation_sideways_moments are proved equal to ratios of "
         "normalising integrals derived independently in the harness (Beta / Tricomi integral "
         "representations, one contiguous relation; validated against quadrature by "
         "tools/check_identities.py) with log 2F1, log 1F1, log U and their derivative "
@@ -244,7 +310,7 @@ def run(tier, seed, t0):
         out_of_scope=["agreement of the Laplace approximations with numerical integration 'to within "
                       "a few percent' and support facts that need the value of a transcendental "
                       "ratio (no SMT theory; used only as the replay oracle)",
-                      "mutation_moments / mutation_unphased_moments / mutation_sideways_moments algebra"],
+                      ],
         validated=npx.validate(),
         expect_tags=["skip", "valid", "closed", "algebra"],
     )
